@@ -37,7 +37,12 @@ MANIFEST = dict(
          "under scaling all weights. List-level bridge over the reals (log-values with -inf entries, np.max, logsumexp = "
          "log sum exp, draws u = 0): the code's log-space rejection test, choice probabilities and ESS formula equal the "
          "linear-domain model on exp(log_w), and are unchanged when all log-weights are shifted by a constant. "
-         "The model is tied to the code by running the real functions (and the real "
+         "SOURCE TIE: effective_sample_size, effective_n_posterior_samples and draw_posterior_samples are translated from the "
+         "current source on every run (harness/pylogvec2lean.py: log-weight vectors -> weights, uniform draws as input; "
+         "Gen/ResampleTx.lean) and ess_source_eq_model, effective_n_source_eq_model, draw_posterior_source_rejection / "
+         "_multinomial / _unknown / _eq_model_rejection re-prove that the generated definitions are the model's ess, effectiveN, "
+         "rejectionIndices, multinomialIndices and drawPosterior. "
+         "The model is also tied to the code by running the real functions (and the real "
          "ImportanceNestedSampler.draw_posterior_samples on a stub sampler with a real _INSIntegralState) with scripted "
          "uniforms (np.random.rand, and random_sample inside the real RandomState.choice) and comparing indices and sample "
          "ids exactly, ESS against the exact rational under 1e-9 relative. Probabilities are reduced to the deterministic "
@@ -46,7 +51,9 @@ MANIFEST = dict(
          "exact arithmetic; comparisons avoid a 2^-34 relative neighbourhood of thresholds that are inexact in float; "
          "int(ESS) can be one less than floor of the exact ESS when the latter is an integer, e.g. N equal weights). "
          "Domain: len(log_w) == nested.size >= 1, weights not all zero for multinomial resampling.",
-    technique="Lean 4 proof (induction over lists, ordered-field algebra) + differential correspondence with scripted RNG",
+    technique="Lean 4 proof (induction over lists, ordered-field algebra) + source-to-Lean translation of effective_sample_size / "
+              "effective_n_posterior_samples / draw_posterior_samples re-proved equal to the model on every run + differential "
+              "correspondence with scripted RNG",
     ref="5/C16")
 
 LN2 = math.log(2.0)
@@ -61,6 +68,50 @@ METHODS_MULT = ("multinomial_resampling", "importance_sampling")
 # --------------------------------------------------------------------------------------------
 # dyadic weights
 # --------------------------------------------------------------------------------------------
+def gen(ctx):
+    """regenerate Gen/ResampleTx.lean: effective_sample_size, _BaseNSIntegralState.effective_n_posterior_samples and
+    draw_posterior_samples translated from the current source (harness/pylogvec2lean.py: log-weight vectors -> the linear
+    domain); C16.ess_source_eq_model / effective_n_source_eq_model / draw_posterior_source_eq_model are re-proved each run."""
+    from . import core, py2lean
+    from . import pylogvec2lean as V
+    specs = [
+        V.VecSpec(source="nessai/utils/stats.py", func="effective_sample_size", name="effective_sample_size",
+                  params=[("log_w", "log_w", V.VLOG)], result="K"),
+        V.VecSpec(source="nessai/evidence.py", cls="_BaseNSIntegralState", func="effective_n_posterior_samples",
+                  name="effective_n_posterior_samples", params=[], result="K",
+                  self_attrs={"log_posterior_weights": ("log_posterior_weights", V.VLOG)}),
+        V.VecSpec(source="nessai/posterior.py", func="draw_posterior_samples", name="draw_posterior_samples",
+                  params=[("nested_samples", "nested", V.ARR), ("nlive", None, V.OPTNAT), ("n", "n", V.OPTNAT),
+                          ("log_w", "log_w", V.VLOG), ("method", "method", V.STR), ("return_indices", "return_indices", V.BOOL),
+                          ("expectation", None, V.STR)],
+                  result="Except Err (List α × List Nat)", uses_uniforms=True, uses_int=True,
+                  calls={"effective_sample_size": ("effective_sample_size", [V.VLOG], V.LIN)},
+                  # the arm that computes the weights itself is C02's (compute_weights): its text is pinned, its content dropped
+                  delegate={"log_w is None": "_, log_w = compute_weights(nested_samples['logL'], nlive, expectation=expectation)"},
+                  doc="`u`: the uniform draws; `intOf`: Python's `int()` of a positive float (floor)."),
+    ]
+    parts, infos = [], {}
+    try:
+        for sp in specs:
+            lean, info = V.translate(core.REPO, sp)
+            parts.append(lean)
+            infos[sp.func] = info
+    except py2lean.TranslationError as e:
+        ctx.broken(f"translator: {e}", "Gen/ResampleTx.lean was left as it was (the theorems are about the last translatable source)")
+        return
+    except (OSError, SyntaxError) as e:
+        ctx.broken(f"translator: cannot read/parse the source: {e}")
+        return
+    text = ("import NessaiVerif.Model.Resample\n"
+            "/-\nGENERATED by harness/pylogvec2lean.py (harness/c16.py gen) from the CURRENT nessai source — do not edit.\n"
+            "C16: effective sample size and posterior resampling, log-weight vectors -> linear domain.\n-/\n"
+            "namespace NessaiVerif.Gen.ResampleTx\nopen NessaiVerif NessaiVerif.Np NessaiVerif.Resample\n\n"
+            "variable {K : Type} {α : Type} [Add K] [Mul K] [Div K] [OfNat K 0] [OfNat K 1] [LT K] [DecidableLT K] [LE K] [DecidableLE K]\n\n"
+            + "\n".join(parts) + "\nend NessaiVerif.Gen.ResampleTx\n")
+    rewritten = py2lean.write_if_changed(core.LEAN / "NessaiVerif" / "Gen" / "ResampleTx.lean", text)
+    ctx.extra["generated"] = dict(infos, rewritten=rewritten)
+
+
 def canon(m, e):
     if m == 0:
         return (0, 0)
